@@ -221,6 +221,21 @@ CHECKS = {
         technique="TLA+ generator automaton explored by TLC; dumped sentences replayed through parser+regenerator; regenerated text trace-validated by TLC",
         design="4/C10",
     ),
+    "C11": dict(
+        specs=["ProfileProd.tla", "Profile.tla", "ProfileHist.tla", "ProfileIO.tla"],
+        text="Profile.tla carries, next to the token sequence, the dictionary entries a profile states (list paths for the six "
+        "data-transform places and the execute list, keyed paths otherwise, variants as a path component, \"default\" elided): "
+        "the reference dictionary view. Every dumped profile (and concatenations, and versions with syntax-laden literals) is "
+        "parsed and its as_dict() compared key by key and value by value (decoded), nothing else may be reported. The same "
+        "profiles are rebuilt through the block-builder API and tree, text and dictionary must coincide with the parsed text. "
+        "ProfileHist.tla models the content-keyed cache under interleavings of four kinds of modification and as_dict(); TLC "
+        "checks the view is always current (a selectively invalidated cache is rejected) and every path of its dumped graph is "
+        "replayed on a real C2Profile.",
+        note="Trusted: TLC, Profile.tla's entries, ProfileProd, harness unescape. transform-x86/x64 blocks may be reported either way; "
+        "data-transform blocks in variants / non-Cobalt-Strike places are not constrained; builder replays exclude variants.",
+        technique="TLA+ generator automaton with reference entries + cache history model (TLC); dumped profiles and histories replayed on the real object",
+        design="4/C11",
+    ),
 }
 
 NOT_YET = "check not built yet in this round; planned in DESIGN.md section 4"
